@@ -205,7 +205,12 @@ func extContainsAny(fr *frame, st *state, c *ssa.CallCommon, args []string, pos 
 		return or(alts...)
 	}
 	rest := sc.declare("containsany_rest", "Bool")
-	r := sc.define("containsany", "Bool", fmt.Sprintf("(or (and (>= (slen %s) 1) %s) (and (>= (slen %s) 2) %s))", s, member(fmt.Sprintf("(sat %s 0)", s)), s, rest))
+	var alts []string
+	for k := 0; k < 4; k++ {
+		alts = append(alts, fmt.Sprintf("(and (> (slen %s) %d) %s)", s, k, member(fmt.Sprintf("(sat %s %d)", s, k))))
+	}
+	alts = append(alts, fmt.Sprintf("(and (> (slen %s) 4) %s)", s, rest))
+	r := sc.define("containsany", "Bool", or(alts...))
 	return []string{r}
 }
 
